@@ -89,6 +89,11 @@ def build_indicator(cfg: dict, **extra):
     """cfg = {"cls": "EMA", "kw": {...}} or {"analysis": "rising", "kw": {...}}"""
     kw = dict(cfg.get("kw", {}))
     kw.update(extra)
+    if isinstance(kw.get("timeframe"), str) and kw["timeframe"].startswith("enum:"):
+        # "enum:T5": the TimeFrame member whose value is T5 (cases are JSON, the enum is a spelling of the same timeframe)
+        from hexital import TimeFrame
+
+        kw["timeframe"] = next(m for m in TimeFrame if m.value == kw["timeframe"][5:].upper())
     if "analysis" in cfg:
         fn = (PATTERN_MAP | MOVEMENT_MAP)[cfg["analysis"]]
         return I.Amorph(analysis=fn, **kw)
